@@ -10,9 +10,20 @@
 # this worktree, it is copied aside at once and the COPY is run; the demo test must appear in its output.
 set -u
 WT=$1; PKG=$2; DIR=$3; SEL=$4; FILTER=$5; DEMO=$6
-export CARGO_NET_OFFLINE=true CARGO_TARGET_DIR=${CARGO_TARGET_DIR:-/repo/target} RUST_BACKTRACE=0
+export CARGO_NET_OFFLINE=true RUST_BACKTRACE=0
 cd "$WT" || exit 2
 mkdir -p "$WT/bins"
+if [ "${OVERLAY:-1}" = 1 ] && [ -z "${CARGO_TARGET_DIR:-}" ]; then
+  # private build directory sharing /repo/target read-only: nothing is copied, only the workspace crates are rebuilt (from
+  # this worktree), and /repo/target itself is never written, so concurrent jobs cannot hand each other stale binaries
+  mkdir -p "$WT/ovl/upper" "$WT/ovl/work" "$WT/target"
+  mountpoint -q "$WT/target" || mount -t overlay overlay -o "lowerdir=/repo/target,upperdir=$WT/ovl/upper,workdir=$WT/ovl/work" "$WT/target" || exit 2
+  rm -rf "$WT/target/debug/incremental" "$WT"/target/debug/deps/lance* "$WT"/target/debug/deps/liblance* "$WT/target/debug/examples"
+  export CARGO_TARGET_DIR="$WT/target"
+  trap 'cd /; umount "$WT/target" 2>/dev/null; rm -rf "$WT/ovl" "$WT/target"' EXIT
+else
+  export CARGO_TARGET_DIR=${CARGO_TARGET_DIR:-/repo/target}
+fi
 git checkout -q -- . 2>/dev/null
 build_run() {   # label
   local label=$1 tries=0 exe=""
